@@ -164,7 +164,13 @@ def local_assignments(stmts, conds=()):
     res = {}
     for st in stmts:
         if isinstance(st, ast.Assign) and len(st.targets) == 1 and isinstance(st.targets[0], ast.Name):
-            res.setdefault(st.targets[0].id, []).append((" & ".join(conds), st.value))
+            if isinstance(st.value, ast.IfExp):          # x = a if c else b
+                t = norm(st.value.test)
+                res.setdefault(st.targets[0].id, []).extend(
+                    [(" & ".join(conds + (t,)), st.value.body),
+                     (" & ".join(conds + ("not (" + t + ")",)), st.value.orelse)])
+            else:
+                res.setdefault(st.targets[0].id, []).append((" & ".join(conds), st.value))
         elif isinstance(st, ast.If):
             t = norm(st.test)
             for k, v in local_assignments(st.body, conds + (t,)).items():
